@@ -17,17 +17,17 @@ func Operate[A any, B any, R any](ac <-chan A, bc <-chan B, o func(A, B) R) <-ch
 
 	VerifStage("Operate", 0, []any{ac, bc}, []any{oc})
 	go func() {
-		defer close(oc)
-
 		for {
 			an, ok := <-ac
 			if !ok {
+				close(oc)
 				Drain(bc)
 				break
 			}
 
 			bn, ok := <-bc
 			if !ok {
+				close(oc)
 				Drain(ac)
 				break
 			}
